@@ -38,7 +38,8 @@ package clip
 //@ func MultiPoint(b, mp)
 //@   ensures forall k :: 0 <= k && k < len(result) ==> contains(b, result[k])
 //@   ensures len(result) <= len(mp)
-//@   loop 1: invariant -1 <= rangeindex && rangeindex < len(mp) && len(result) <= rangeindex + 1 && (result == nil || fresh(result) || result.ref == mp.ref)
+//@   ensures result == nil <==> len(result) == 0
+//@   loop 1: invariant -1 <= rangeindex && rangeindex < len(mp) && len(result) <= rangeindex + 1 && (result == nil || fresh(result) || result.ref == mp.ref) && (result == nil <==> len(result) == 0)
 //@   loop 1: invariant forall k :: 0 <= k && k < len(result) ==> contains(b, result[k])
 
 // ---------------------------------------------------------------- the line clipper: memory safety and the edge-code discipline
@@ -63,10 +64,13 @@ package clip
 
 //@ func LineString(b, ls, opts)
 //@   requires forall k :: 0 <= k && k < len(opts) ==> opts[k] != nil
+//@   ensures result == nil <==> len(result) == 0
 //@   opt funcsPreserve=S:orb.Point,S:orb.LineString,S:clip.Option
 //@   loop 1: invariant forall k :: 0 <= k && k < len(opts) ==> opts[k] != nil
 //@ func MultiLineString(b, mls, opts)
 //@   requires forall k :: 0 <= k && k < len(opts) ==> opts[k] != nil
+//@   ensures result == nil <==> len(result) == 0
+//@   loop 2: invariant result == nil <==> len(result) == 0
 //@   opt funcsPreserve=S:orb.Point,S:orb.LineString,S:clip.Option
 //@   loop 1: invariant forall k :: 0 <= k && k < len(opts) ==> opts[k] != nil
 //@   loop 2: exit rangeindex + 1 >= len(mls)
@@ -81,9 +85,26 @@ package clip
 //@   loop 1: exit i >= len(p)
 //@ func MultiPolygon(b, mp)
 //@   ensures len(result) <= len(mp)
-//@   loop 1: invariant -1 <= rangeindex && rangeindex < len(mp) && len(result) <= rangeindex + 1
+//@   ensures result == nil <==> len(result) == 0
+//@   ensures forall k :: 0 <= k && k < len(result) ==> len(result[k]) >= 1
+//@   loop 1: invariant -1 <= rangeindex && rangeindex < len(mp) && len(result) <= rangeindex + 1 && (result == nil <==> len(result) == 0) && (result == nil || fresh(result))
+//@   loop 1: invariant forall k :: 0 <= k && k < len(result) ==> len(result[k]) >= 1
 //@   loop 1: exit rangeindex + 1 >= len(mp)
 //@ func Collection(b, c)
 //@   ensures len(result) <= len(c)
-//@   loop 1: invariant -1 <= rangeindex && rangeindex < len(c) && len(result) <= rangeindex + 1
+//@   ensures result == nil <==> len(result) == 0
+//@   ensures forall k :: 0 <= k && k < len(result) ==> result[k] != nil && remains(result[k])
+//@   loop 1: invariant -1 <= rangeindex && rangeindex < len(c) && len(result) <= rangeindex + 1 && (result == nil <==> len(result) == 0) && (result == nil || fresh(result))
+//@   loop 1: invariant forall k :: 0 <= k && k < len(result) ==> result[k] != nil && remains(result[k])
 //@   loop 1: exit rangeindex + 1 >= len(c)
+
+// ---------------------------------------------------------------- the generic clip: nil exactly when nothing remains
+// a non-nil answer always holds something: a slice kind comes back with at least one element, a
+// one-member multi is unwrapped to its member (so a returned multi has at least two), a bound is
+// returned only when the intersection is not empty
+//@ func Ring(b, r)
+//@   ensures result == nil <==> len(result) == 0
+//@ spec remains(x orb.Geometry) bool = (istype(x, orb.MultiPoint) ==> len(as(x, orb.MultiPoint)) >= 2) && (istype(x, orb.MultiLineString) ==> len(as(x, orb.MultiLineString)) >= 2) && (istype(x, orb.Ring) ==> len(as(x, orb.Ring)) >= 1) && (istype(x, orb.Polygon) ==> len(as(x, orb.Polygon)) >= 1) && (istype(x, orb.MultiPolygon) ==> len(as(x, orb.MultiPolygon)) >= 2) && (istype(x, orb.Collection) ==> len(as(x, orb.Collection)) >= 2) && (istype(x, orb.Bound) ==> !isempty(as(x, orb.Bound)))
+//@ func Geometry(b, g)
+//@   ensures g == nil ==> result == nil
+//@   ensures remains(result)
